@@ -36,8 +36,10 @@ def run(tier):
     qbase = PC2.base_cfgs(tier, 3300000, QUERY_OK, 3 if tier == "quick" else 12, seedoff=2, n_choices=(100,))
     jobs, plan = [], []
     k = 0
-    for sc in scheds[: (30 if tier == "quick" else 81)] + long:
-        c = rnd.choice(qbase)
+    every = ["A", "A"] + ["A", "A", "Q"] * 39          # a query after every round from the second on
+    plan_sc = [(sc, None) for sc in scheds[: (30 if tier == "quick" else 81)] + long] + [(every, c) for c in qbase]
+    for sc, fixed in plan_sc:
+        c = fixed if fixed is not None else rnd.choice(qbase)
         k += 2
         a = dict(c, id=4000000 + k, T=40)
         b = PC2.with_queries(dict(c, id=4000001 + k, T=40), sc)
